@@ -172,8 +172,7 @@ func (d *Dumper) ValueLit(in any, optFns ...ValueLitOptFn) string {
 		elemType := d.ReflectTypeLit(elem.Type())
 		return fmt.Sprintf("func(v %s) *%s { return &v }(%s)", elemType, elemType, d.ValueLit(elem, optFns...))
 	case reflect.Struct:
-		buf := bytes.NewBufferString(d.ReflectTypeLit(tpe))
-		buf.WriteString(`{`)
+		fields := bytes.NewBuffer(nil)
 
 		c := 0
 
@@ -189,14 +188,14 @@ func (d *Dumper) ValueLit(in any, optFns ...ValueLitOptFn) string {
 				}
 
 				if c == 0 {
-					buf.WriteString("\n")
+					fields.WriteString("\n")
 				}
 
-				buf.WriteString(ft.Name)
-				buf.WriteString(":")
-				buf.WriteString(v)
-				buf.WriteString(",")
-				buf.WriteString("\n")
+				fields.WriteString(ft.Name)
+				fields.WriteString(":")
+				fields.WriteString(v)
+				fields.WriteString(",")
+				fields.WriteString("\n")
 
 				c++
 			}
@@ -207,6 +206,10 @@ func (d *Dumper) ValueLit(in any, optFns ...ValueLitOptFn) string {
 			return ""
 		}
 
+		// the type is named (and its package registered as import) only when the literal is really emitted
+		buf := bytes.NewBufferString(d.ReflectTypeLit(tpe))
+		buf.WriteString(`{`)
+		buf.Write(fields.Bytes())
 		buf.WriteString(`}`)
 
 		return buf.String()
